@@ -7,6 +7,7 @@ the contract."""
 import re, sys, os, subprocess, tempfile, concurrent.futures, argparse, glob
 ap = argparse.ArgumentParser()
 ap.add_argument('pkg'); ap.add_argument('func'); ap.add_argument('--max', type=int, default=80); ap.add_argument('--jobs', type=int, default=6)
+ap.add_argument('--seed', type=int, default=1)
 ap.add_argument('--verify', nargs='*', help='contract names to verify (default: the function itself)')
 a = ap.parse_args()
 name = a.func
@@ -47,7 +48,7 @@ for k in range(lo + 1, hi):
         ind = l[:len(l) - len(l.lstrip())]
         muts.append((k, ind + '_ = 0', 'delete statement'))
 import random
-random.seed(1)
+random.seed(a.seed)
 if len(muts) > a.max:
     muts = random.sample(muts, a.max)
 muts.sort()
